@@ -344,6 +344,26 @@ fn c13_oracle<T: El>(a: &mut SetWorld<T>, b: &mut SetWorld<T>, _spec: &ShardSpec
     vcheck_eq!("intersection.count", sa.intersection(sb).count(), ra.intersection(&rb).count());
     vcheck_eq!("difference.count", sa.difference(sb).count(), ra.difference(&rb).count());
     vcheck_eq!("symmetric_difference.count", sa.symmetric_difference(sb).count(), ra.symmetric_difference(&rb).count());
+    // ... also from a partly consumed iterator: what count() / fold say must be what a clone still yields
+    macro_rules! partly {
+        ($mk:expr, $name:expr) => {{
+            for adv in [1usize, 2] {
+                let mut it = $mk;
+                for _ in 0..adv {
+                    it.next();
+                }
+                let rest = it.clone().map(|x| x.id()).collect::<Vec<u32>>().len();
+                vcheck_eq!(concat!($name, " count() after next()"), it.clone().count(), rest);
+                vcheck_eq!(concat!($name, " fold after next()"), it.fold(0usize, |n, _| n + 1), rest);
+            }
+            let all = $mk.count();
+            vcheck_eq!(concat!($name, ".skip(1).count()"), $mk.skip(1).count(), all.saturating_sub(1));
+        }};
+    }
+    partly!(sa.union(sb), "union");
+    partly!(sa.intersection(sb), "intersection");
+    partly!(sa.difference(sb), "difference");
+    partly!(sa.symmetric_difference(sb), "symmetric_difference");
     vcheck_eq!("union.last", sa.union(sb).last().is_some(), ra.union(&rb).count() > 0);
     vcheck_eq!("difference.nth(1)", sa.difference(sb).nth(1).is_some(), ra.difference(&rb).count() > 1);
     // operator forms build new sets (S: Default, T: Clone): with a default hasher state that differs from
